@@ -14,9 +14,9 @@ func init() { props["C12"] = runC12 }
 // C12: relational monitor over real simulators only: the battle placed at
 // shift k (and at k+j*M) must be the rotation by k of the battle at shift 0.
 func runC12(c *Ctx) {
-	n := int64(8000)
+	n := int64(80000)
 	if c.Thorough() {
-		n = 600000
+		n = 4000000
 	}
 	c.Cases(n, func(idx int64, r *Rng) {
 		bc := genBattle(r, 3, true)
